@@ -85,8 +85,12 @@ class Facts(Walker):
                 out[k] = a
             elif k.startswith(("v:", "s:")) and isinstance(a, str) and isinstance(b, str):
                 out[k] = _phi(a, b)
-        if "C" not in out:
-            out["C"] = s1.get("C", frozenset()) | s2.get("C", frozenset())
+        out["C"] = s1.get("C", frozenset()) | s2.get("C", frozenset())
+        # a join of a complex-tainted value with anything is (may be) complex
+        for k, v in list(out.items()):
+            if k.startswith(("v:", "s:")) and isinstance(v, str) and v.startswith("phi:"):
+                if s1.get(k) in s1.get("C", ()) or s2.get(k) in s2.get("C", ()):
+                    out["C"] = out["C"] | {v}
         if "F" not in out:
             out["F"] = frozenset()
         return out
@@ -373,6 +377,8 @@ class Facts(Walker):
             if sc:
                 sc(self, t, stmt, st)
             if isinstance(base, ast.Name):
+                if st.get("v:" + base.id) in st["C"]:
+                    st["C"] = st["C"] | {new}       # storing into a complex array keeps it complex
                 st["v:" + base.id] = new
             elif isinstance(base, ast.Attribute) and isinstance(base.value, ast.Name) and base.value.id == self.self_name:
                 st["s:" + base.attr] = new
